@@ -18,9 +18,11 @@ for tc in root.iter("testcase"):
     skipped = any(ch.tag == "skipped" for ch in tc)
     status[tid] = "fail" if bad else ("skip" if skipped else "pass")
 missing = sorted(t for t in stable if t not in status)
-broken = sorted(t for t in stable if status.get(t) not in ("pass",) and t in status)
+# benchmarks/__init__.py calls pytest.xfail() when a wall-clock threshold is exceeded (machine load): junit records that as "skipped"
+timing = sorted(t for t in stable if t.startswith("benchmarks.") and status.get(t) == "skip")
+broken = sorted(t for t in stable if status.get(t) not in ("pass",) and t in status and t not in timing)
 newpass = sorted(t for t, s in status.items() if s == "pass" and t not in stable)
-print("stable_pass=%d present=%d still_passing=%d broken=%d missing=%d newly_passing=%d" % (len(stable), len(stable) - len(missing), len(stable) - len(missing) - len(broken), len(broken), len(missing), len(newpass)))
+print("stable_pass=%d present=%d still_passing=%d broken=%d missing=%d benchmark_timing_xfail=%d newly_passing=%d" % (len(stable), len(stable) - len(missing), len(stable) - len(missing) - len(broken) - len(timing), len(broken), len(missing), len(timing), len(newpass)))
 for t in broken[:40]:
     print("BROKEN", t, status[t])
 for t in missing[:10]:
